@@ -133,7 +133,7 @@ class MediaList(cssutils.util._NewListBase):
             for item in seq:
                 # filter for doubles?
                 if item.type == 'MediaQuery':
-                    mediaType = item.value.mediaType
+                    mediaType = normalize(item.value.mediaType)
                     if mediaType:
                         if mediaType == 'all':
                             # remove anthing else and keep all+comments(!) only
